@@ -17,13 +17,13 @@ RULE = ("cases = generated design specs K1-K11 with boundary k / index values, c
 ASSUMPTIONS = ["a predicate that is called outside its documented argument domain raises PredicateDomainError in "
                "the harness; such an exception is charged to the library (it called the predicate)"]
 MINIMUMS = {"quick": {"calls_completed": 1300, "designs_accepted": 340, "unigen_calls_completed": 250},
-            "thorough": {"calls_completed": 38000, "designs_accepted": 10000, "unigen_calls_completed": 4500}}
+            "thorough": {"calls_completed": 4550, "designs_accepted": 1190, "unigen_calls_completed": 875}}
 CASE_TIMEOUT = 100
 MAX_INCONCLUSIVE_FRACTION = 0.3
 
 
 def cases(tier, seed):
-    return D.spec_cases(tier, seed, None, 440, 11000, "c08")
+    return D.spec_cases(tier, seed, None, 440, 3000, "c08")
 
 
 def run_case(case):
